@@ -17,7 +17,7 @@ LEVEL = "exploration"
 RULE = (
     "doc cases: Hypothesis draws a Type0 font (Encoding = Identity-H/V, OneByteIdentityH/V, DLIdent-H/V as a name or as "
     "an embedded CMap stream carrying /CMapName, or a predefined CJK CMap name), a descendant CIDFontType0/2 with "
-    "CIDSystemInfo Adobe-Identity/Japan1/GB1/CNS1/Korea1, a text source (ToUnicode CMap from the grammar bfchar / "
+    "CIDSystemInfo Adobe-Identity/UCS/Japan1/GB1/CNS1/Korea1, a text source (ToUnicode CMap from the grammar bfchar / "
     "bfrange increment incl. low-byte carry and surrogate-pair targets / bfrange array / multi-character targets, "
     "1- or 2-byte source codes; embedded TrueType with an injective cmap format 0 or 4 with free segment choices and "
     "an ignorable Mac subtable; character collection; none), /W in both syntaxes interleaved + /DW (horizontal) or "
@@ -53,6 +53,8 @@ IDENT = {  # name -> (bytes per code, vertical)
     "OneByteIdentityH": (1, False), "OneByteIdentityV": (1, True),
 }
 CJK_COLLS = ["Adobe-Japan1", "Adobe-GB1", "Adobe-CNS1", "Adobe-Korea1"]
+# collections without a character-collection table: the Unicode source is ToUnicode or the embedded TrueType cmap
+IDENT_COLLS = ("Adobe-Identity", "Adobe-UCS")
 
 # (CMap base name, platform codec, collection)
 PAIRS = [
@@ -435,7 +437,7 @@ def _expected_text(font, code, cid):
         else:
             t = font["ttf_inv"].get(cid)
             fallback.append(chr(t) if t is not None else notdef)
-    elif font["coll"] != "Adobe-Identity":
+    elif font["coll"] not in IDENT_COLLS:
         u = _unichr(font["coll"], font["vertical"], cid)
         fallback.append(u if u is not None else notdef)
     if src == "tu":
@@ -630,7 +632,9 @@ def _build_doc(font_model, enc_value, enc_stream, subtype, rnd, strings, size, x
         data = C.build_ttf(ttf_subtables, rnd)
         extra[22] = W.Stream(W.D(Length1=len(data)), data)
         ttf_ref = W.R(22)
-    extra[21] = C.font_descriptor(fontfile2=ttf_ref)
+    # a /MissingWidth in the descriptor (in a third of the documents) never replaces /DW or its default 1000
+    r2 = random.Random(repr((strings, size, x, y)))
+    extra[21] = C.font_descriptor(fontfile2=ttf_ref, missing_width=r2.choice([250, 600, 1234]) if r2.random() < 0.33 else None)
     extra[20] = C.descendant(subtype, font_model["coll"], W.R(21), W=w_arr, DW=C._num(font_model["DW"]) if font_model["DW"] is not None else None,
                              W2=w2_arr, DW2=[C._num(v) for v in font_model["DW2"]] if font_model["DW2"] is not None else None,
                              cidtogid=W.N("Identity") if (subtype == "CIDFontType2" and rnd.random() < 0.5) else None)
@@ -731,8 +735,8 @@ def ident_cases(draw):
     rnd = random.Random(draw(st.integers(0, 2 ** 32)))
     enc = draw(st.sampled_from(list(IDENT)))
     nbytes, vertical = IDENT[enc]
-    coll = draw(st.sampled_from(["Adobe-Identity", "Adobe-Identity", "Adobe-Identity"] + CJK_COLLS))
-    if coll == "Adobe-Identity":
+    coll = draw(st.sampled_from(["Adobe-Identity", "Adobe-Identity", "Adobe-UCS"] + CJK_COLLS))
+    if coll in IDENT_COLLS:
         src = draw(st.sampled_from(["tu", "tu", "ttf", "ttf", "tu+ttf", "none"]))
     else:
         src = draw(st.sampled_from(["coll", "coll", "tu"]))
@@ -741,7 +745,7 @@ def ident_cases(draw):
     # ---- shown strings
     nstr = draw(st.integers(1, 3))
     strings = []
-    small_top = 23000 if coll != "Adobe-Identity" else 3000
+    small_top = 23000 if coll not in IDENT_COLLS else 3000
     for k in range(nstr):
         codes = draw(_code_lists(nbytes, small_top, 1 if k == 0 else 0))
         if nbytes == 2 and draw(st.integers(0, 3)) == 0:
